@@ -21,7 +21,8 @@ type Gen struct {
 	// BigInts makes index / slice literals occasionally huge (around 2^31, 2^63).
 	BigInts bool
 	// FuncP is the probability (in 1/16) that a top-level path gets trailing functions.
-	FuncP int
+	FuncP  int
+	budget int
 }
 
 func New(r *rand.Rand) *Gen {
